@@ -115,7 +115,8 @@ RunOps(ops, i, c, acc) ==
         THEN [acc EXCEPT !.res = Append(@, [r |-> "failed", exc |-> op.exc, at_ms |-> Wall]), !.done = TRUE]
         ELSE RunOps(ops, i + 1, c, acc)
     [] op.op = "ret" -> [acc EXCEPT !.res = Append(@, [r |-> "ret", ty |-> op.ty, uid |-> c.uid \o ">" \o c.step]), !.done = TRUE]
-    [] op.op = "stop" -> [acc EXCEPT !.res = Append(@, [r |-> "ret", ty |-> "Stop", uid |-> "r:" \o c.uid]), !.done = TRUE]
+    [] op.op = "stop" -> [acc EXCEPT !.res = Append(@, [r |-> "ret", ty |-> "Stop",
+                                                         uid |-> IF op.result = "" THEN "r:" \o c.uid ELSE op.result]), !.done = TRUE]
     [] op.op = "none" -> [acc EXCEPT !.res = Append(@, [r |-> "ret", ty |-> "None", uid |-> ""]), !.done = TRUE]
     [] op.op = "junk" -> [acc EXCEPT !.res = Append(@, [r |-> "failed", exc |-> "WorkflowRuntimeError", at_ms |-> Wall]), !.done = TRUE]
     [] OTHER -> RunOps(ops, i + 1, c, acc)
@@ -326,17 +327,22 @@ WorkerFinishBody(t) ==
   /\ UNCHANGED <<bs, buf, wake, wseq, idlePending, pend, pull, now, outcome, phase, next, ncancel, tickLog, pubs>>
 WorkerFinish(t) == Quiescent /\ WorkerFinishBody(t)
 
-ExtSend(m) ==
-  /\ Live /\ Quiescent /\ next < MaxExt
-  /\ mailbox' = Append(mailbox, [k |-> "add", ty |-> m.ty, uid |-> "x" \o ToString(next), evk |-> m.k, target |-> m.target,
+(* (the bodies without the "only at quiescence" scheduling assumption: TraceEngine.tla uses them for runs inside the server, *)
+(*  where a send can reach the mailbox before a freshly reloaded loop has processed its first tick)                        *)
+ExtSendUid(m, uid) ==
+  /\ Live /\ next < MaxExt
+  /\ mailbox' = Append(mailbox, [k |-> "add", ty |-> m.ty, uid |-> uid, evk |-> m.k, target |-> m.target,
                                  att |-> -1, first |-> -1, last_exc |-> "none", rc |-> R!NoRc])
   /\ next' = next + 1
   /\ UNCHANGED <<bs, buf, wake, wseq, idlePending, pend, tasks, pull, now, outcome, phase, ncancel, tickLog, pubs, mon>>
+ExtSendBody(m) == ExtSendUid(m, "x" \o ToString(next))
+ExtSend(m) == Quiescent /\ ExtSendBody(m)
 
-ExtCancel ==
-  /\ Live /\ Quiescent /\ ncancel < MaxCancel
+ExtCancelBody ==
+  /\ Live /\ ncancel < MaxCancel
   /\ mailbox' = Append(mailbox, [k |-> "cancel"]) /\ ncancel' = ncancel + 1
   /\ UNCHANGED <<bs, buf, wake, wseq, idlePending, pend, tasks, pull, now, outcome, phase, next, tickLog, pubs, mon>>
+ExtCancel == Quiescent /\ ExtCancelBody
 
 Advance ==
   /\ Live /\ Quiescent /\ wake # {}
